@@ -52,6 +52,8 @@ def dist_items(tier, seed):
         if not flowgen.flow_invertible(c) and not c["invert"]:
             continue  # planar tanh, invert=False: log_prob would need the missing inverse
         items.append({"kind": "flow", "case": c, "base": BASES_R[j % len(BASES_R)], "bseed": 6000 + j, "origin": "flow"})
+    for j, c in enumerate(flowgen.corner_cases()):
+        items.append({"kind": "flow", "case": c, "base": BASES_R[j % len(BASES_R)], "bseed": 6500 + j, "origin": "flow-corner"})
     nrand = 40 if tier != "thorough" else 500
     gen = S.Gen(rng)
     for _ in range(nrand):
